@@ -7,7 +7,7 @@
 //! case:  Q <cap|u> <ctor> <actions>      ctor: 0 = builder without handler, 1 = builder (capacity, then handler),
 //!                                        2 = builder (handler, then capacity), 3 = QueuingMetricSink::from / ::with_capacity
 //!   actions = comma list of  E<h>[e|l|u|s] (emit on handle h; payload shape: empty string / 100 kB / non-ASCII / bare number) | C<h> (clone h) | D<h> (drop h) | U<h> (h dropped by a thread unwinding from a panic)
-//!             | Rk | Rz | Re<id> | Ro<errno> | Rp (release the metric in the gate with Ok(len) / Ok(0) / Err(id) /
+//!             | Rk | Rz | Rn<k> | Re<id> | Ro<errno> | Rp (release the metric in the gate with Ok(len) / Ok(0) / Ok(k) / Err(id) /
 //!               Err(from_raw_os_error(errno)) / panic) | S (sample counters)
 //!             | F<h> (flush() on handle h; observation l, or le when it returned an error)
 //!   handles are numbered in creation order, 0 = the original
@@ -31,6 +31,9 @@ pub enum Outcome {
     Ok,
     /// accepted, answering Ok(0) - what NopMetricSink answers, and what the trait's documentation allows any sink to
     Zero,
+    /// accepted, answering Ok(n) for an arbitrary n (a sink that reports a datagram count, or the bytes of a truncated
+    /// send): still accepted - `MetricSink::emit` gives the count no meaning the queuing sink could act on
+    Count(usize),
     /// a failure carrying a raw OS error number (what a real socket returns), reported as id 2000 + errno
     Os(i32),
     Err(u64),
@@ -121,6 +124,7 @@ impl MetricSink for GatedSink {
         match o {
             Outcome::Ok => Ok(metric.len()),
             Outcome::Zero => Ok(0),
+            Outcome::Count(n) => Ok(n),
             Outcome::Os(n) => Err(io::Error::from_raw_os_error(n)),
             // the io::ErrorKind varies with the payload id (id 8 -> Interrupted, 5 -> WouldBlock, 9 -> Other ...)
             Outcome::Err(id) => Err(io::Error::new(crate::wire::IO_KINDS[id as usize % crate::wire::IO_KINDS.len()], Payload(id))),
@@ -149,7 +153,7 @@ pub fn gate_stats(gate: &Gate) -> cadence::SinkStats {
     let mut s = cadence::SinkStats::default();
     for (m, o, _) in st.log.iter() {
         match o {
-            Outcome::Ok | Outcome::Zero => {
+            Outcome::Ok | Outcome::Zero | Outcome::Count(_) => {
                 s.bytes_sent += m.len() as u64;
                 s.packets_sent += 1;
             }
@@ -683,6 +687,74 @@ pub fn run_case(line: &str) -> String {
     if t[0] == "QH" {
         return run_sched(&t);
     }
+    if t[0] == "QD" {
+        // the same scripted history with ANOTHER queuing sink alive in the process (nothing of one sink's behaviour may
+        // depend on another's): kind 1 = a full bounded queue whose last handle has been dropped (its stop marker is
+        // pending behind the full queue for the whole case), kind 2 = a sink whose wrapped sink has panicked once
+        let kind: u8 = t[1].parse().unwrap();
+        let mut decoy = Rig::with_ctor(Some(1), 1);
+        let mut problems: Vec<String> = vec![];
+        let d_emit = |r: &mut Rig, m: &str| {
+            let ok = r.handles[0].as_ref().unwrap().emit(m).is_ok();
+            if ok {
+                r.accepted.push(m.to_string());
+            }
+            r.settle();
+            ok
+        };
+        let release = |r: &mut Rig, o: Outcome| {
+            let mut st = r.gate.m.lock().unwrap();
+            let n = st.log.len();
+            st.release = Some(o);
+            r.gate.cv.notify_all();
+            let deadline = Instant::now() + SETTLE;
+            while st.log.len() == n && Instant::now() < deadline {
+                let (g, _) = r.gate.cv.wait_timeout(st, Duration::from_millis(20)).unwrap();
+                st = g;
+            }
+        };
+        decoy.settle();
+        if kind == 2 {
+            d_emit(&mut decoy, "decoy.boom:1|c");
+            decoy.panics_released += 1;
+            release(&mut decoy, Outcome::Panic);
+            decoy.settle();
+        }
+        let first = d_emit(&mut decoy, "decoy.a:1|c");
+        let second = d_emit(&mut decoy, "decoy.b:1|c");
+        if !(first && second) {
+            problems.push("the other sink refused an emit with room in its queue".to_string());
+        }
+        if kind == 1 {
+            let h = decoy.handles[0].take();
+            drop(h);
+        }
+        let rest: Vec<&str> = std::iter::once("Q").chain(t[2..].iter().copied()).collect();
+        let main = run_case(&rest.join(" "));
+        // the other sink now finishes its own life
+        {
+            let mut st = decoy.gate.m.lock().unwrap();
+            st.auto = true;
+            decoy.gate.cv.notify_all();
+        }
+        decoy.handles.clear();
+        let deadline = Instant::now() + Duration::from_secs(2);
+        let mut st = decoy.gate.m.lock().unwrap();
+        while !st.dropped && Instant::now() < deadline {
+            let (g, _) = decoy.gate.cv.wait_timeout(st, Duration::from_millis(20)).unwrap();
+            st = g;
+        }
+        if !st.dropped {
+            problems.push("the other sink's worker did not stop / its wrapped sink was not released after its last handle was dropped".to_string());
+        }
+        let got: Vec<&String> = st.log.iter().map(|(m, _, _)| m).collect();
+        let want: Vec<&String> = decoy.accepted.iter().collect();
+        if got != want {
+            problems.push(format!("the other sink delivered {:?} of the accepted {:?}", got, want));
+        }
+        drop(st);
+        return format!("{}|Y:{}", main, if problems.is_empty() { "ok".to_string() } else { problems.join(" / ") });
+    }
     assert!(t[0] == "Q");
     let cap = if t[1] == "u" { None } else { Some(t[1].parse::<usize>().unwrap()) };
     let ctor: u8 = t[2].parse().unwrap();
@@ -766,6 +838,7 @@ pub fn run_case(line: &str) -> String {
                 let outcome = match arg {
                     "k" => Outcome::Ok,
                     "z" => Outcome::Zero,
+                    _ if arg.starts_with('n') => Outcome::Count(arg[1..].parse().unwrap()),
                     "p" => Outcome::Panic,
                     _ if arg.starts_with('o') => Outcome::Os(arg[1..].parse().unwrap()),
                     _ => Outcome::Err(arg[1..].parse().unwrap()),
@@ -843,7 +916,7 @@ pub fn run_case(line: &str) -> String {
                     "{}:{}",
                     idx(m),
                     match o {
-                        Outcome::Ok | Outcome::Zero => "k".to_string(),
+                        Outcome::Ok | Outcome::Zero | Outcome::Count(_) => "k".to_string(),
                         Outcome::Os(n) => format!("e{}", 2000 + *n as i64),
                         Outcome::Err(id) => format!("e{}", id),
                         Outcome::Panic => "p".to_string(),
@@ -1186,7 +1259,7 @@ mod sched {
                         "{}:{}",
                         accepted.iter().position(|x| x == m).map(|i| i.to_string()).unwrap_or_else(|| "?".to_string()),
                         match o {
-                            Outcome::Ok | Outcome::Zero => "k".to_string(),
+                            Outcome::Ok | Outcome::Zero | Outcome::Count(_) => "k".to_string(),
                             Outcome::Os(n) => format!("e{}", 2000 + *n as i64),
                             Outcome::Err(id) => format!("e{}", id),
                             Outcome::Panic => "p".to_string(),
